@@ -531,7 +531,15 @@ class Evaluator:
                 b = b.value
             if isinstance(b, ast.Name) and b.id in env.vars:
                 old = env.vars[b.id]
-                env.vars[b.id] = old.clone(init=None)
+                init = None
+                # x[...] = c  /  x[:] = c : every element overwritten with the constant
+                sl = tgt.slice
+                whole = (isinstance(sl, ast.Constant) and sl.value is Ellipsis) or \
+                    (isinstance(sl, ast.Slice) and sl.lower is None and sl.upper is None and sl.step is None)
+                if whole and isinstance(tgt.value, ast.Name) and val is not None and getattr(val, "cval", None) is not None and \
+                        isinstance(val.cval, (int, float)) and not isinstance(val.cval, bool):
+                    init = ("zeros",) if val.cval == 0 else ("const", val.cval)
+                env.vars[b.id] = old.clone(init=init)
 
     def run(self, stmts, env):
         for s in stmts:
